@@ -1144,6 +1144,11 @@ def container_call(eng, st, target, name, args, kwargs, node=None):
 @builtin(len)
 def _len(eng, st, args, kw, node):
     (v,) = args
+    if v is engine_mod().OPAQUE:
+        n = Int.fresh("opaque.len")
+        st.assume(n.z >= 0)
+        yield st, n
+        return
     for s, v in eng.force(st, v):
         c = eng.deref(s, v)
         if isinstance(c, (CList,)):
@@ -2091,6 +2096,8 @@ _cc2 = container_call
 
 def container_call(eng, st, target, name, args, kwargs, node=None):  # noqa: F811
     c = eng.deref(st, target)
+    if any(a is engine_mod().OPAQUE for a in args) and name in ("append", "extend", "add", "update"):
+        raise Unsupported("opaque value stored into a modelled container")
     if isinstance(c, FSet):
         yield from fset_call(eng, st, target, c, name, args, kwargs, node)
         return
